@@ -70,6 +70,29 @@ theorem exprSearch_safe (meth : Option (List Char)) (m : List Char) (P U : List 
   rw [parse_format_safe meth P hs hplain]
   exact (reSearch_iff _ _).mpr (search_of_full (covers_full meth m P U hmeth hs hu hmt))
 
+/-- Policy side of `BuildHAProxyEndpointsRequest`: an endpoint with at least one enabled plugin has at least one
+    entry. -/
+theorem policy_registered (ps : List Policy) (g : Bool) (p : Policy) (hp : p ∈ ps) (he : p.enabled = true) :
+    formatEndpoint p.method.toList p.url.toList ∈ registered (.policies ps g) := by
+  simp only [registered, List.mem_flatMap, List.mem_map]
+  refine ⟨p, hp, ?_⟩
+  have hne : (p.rem.filter id ++ p.diag.filter id) ≠ [] := by
+    simp only [Policy.enabled, Bool.or_eq_true, List.any_eq_true, id] at he
+    rcases he with ⟨b, hb, hbt⟩ | ⟨b, hb, hbt⟩
+    · intro hnil
+      have : b ∈ p.rem.filter id ++ p.diag.filter id :=
+        List.mem_append.mpr (Or.inl (List.mem_filter.mpr ⟨hb, hbt⟩))
+      rw [hnil] at this
+      simp at this
+    · intro hnil
+      have : b ∈ p.rem.filter id ++ p.diag.filter id :=
+        List.mem_append.mpr (Or.inr (List.mem_filter.mpr ⟨hb, hbt⟩))
+      rw [hnil] at this
+      simp at this
+  cases hl : p.rem.filter id ++ p.diag.filter id with
+  | nil => exact absurd hl hne
+  | cons b bs => exact ⟨b, by simp, rfl⟩
+
 /-- Every method an enabled declaration accepts has an expression registered for it: the method's own, or —
     when the declaration names no method — the any-method expression. -/
 theorem registered_mem (cfg : Cfg) (d : Decl) (method : String) (hd : d ∈ declsOf cfg) (he : d.enabled = true)
@@ -110,8 +133,7 @@ theorem registered_mem (cfg : Cfg) (d : Decl) (method : String) (hd : d ∈ decl
       List.mem_singleton] at hm
     refine ⟨some method.toList, Or.inl rfl, ?_⟩
     subst hm
-    simp only [registered, List.mem_map, List.mem_filter, methodText, Option.getD_some]
-    exact ⟨p, ⟨hp, he⟩, rfl⟩
+    simpa [methodText] using policy_registered ps g p hp he
 
 /-- A clean declaration (within the input assumptions) is managed. -/
 theorem clean_managed (cfg : Cfg) (d : Decl) (method url : String) (hd : d ∈ declsOf cfg)
@@ -121,9 +143,7 @@ theorem clean_managed (cfg : Cfg) (d : Decl) (method url : String) (hd : d ∈ d
   split at hc
   · cases hc
   · split at hc
-    · cases hc
     · rename_i _ hacc
-      simp only [Bool.not_eq_true', Bool.not_eq_false] at hacc
       simp only [accepts, Bool.and_eq_true] at hacc
       obtain ⟨⟨⟨hen, hmeth⟩, hmt⟩, hwf⟩ := hacc
       simp only [assumptionsOK, Bool.and_eq_true, beq_iff_eq, List.all_eq_true] at ha
@@ -146,5 +166,6 @@ theorem clean_managed (cfg : Cfg) (d : Decl) (method url : String) (hd : d ∈ d
       unfold managedB
       simp only [Bool.or_eq_true, List.any_eq_true]
       exact Or.inr ⟨_, hreg, hex⟩
+    · split at hc <;> cases hc
 
 end LunarVerif.C14
